@@ -219,6 +219,25 @@ Proof.
 Qed.
 Print Assumptions C01_zero_length_boundary_refuted.
 
+(* Why "one run per chromosome" is a hypothesis: with the chromosome order check off, an input in
+   which chromosome "a" comes back after "b" is accepted, "a" keeps its id, the section list handed
+   to the index is no longer sorted, and the second run's value a:[20,30) is not returned by the
+   full-span read (replayed on the real code: notes/C01.md, F2) *)
+Definition split_opts : opts :=
+  {| o_compress := false; o_ips := 2; o_bs := 2; o_izoom := 10; o_maxzooms := 2; o_manual := None; o_sort_all := false |}.
+Definition split_inp : list item :=
+  let v a b := {| v_start := a; v_end := b; v_bits := 1065353216 |} in
+  [([97], v 0 10); ([98], v 0 5); ([98], v 5 6); ([98], v 7 8); ([97], v 20 30)].
+Theorem C01_split_chromosome_refuted :
+  exists bs i, bw_write ieee split_opts [([97], 100); ([98], 50)] split_inp = Ok bs /\ read_info bs = Ok i
+    /\ length (vals_of split_inp [97]) = 2%nat
+    /\ bw_interval (fun x => x) bs i [97] 0 100 = Ok [{| v_start := 0; v_end := 10; v_bits := 1065353216 |}].
+Proof.
+  eexists. eexists. split; [vm_compute; reflexivity|]. split; [vm_compute; reflexivity|]. split; [reflexivity|].
+  vm_compute. reflexivity.
+Qed.
+Print Assumptions C01_split_chromosome_refuted.
+
 (* Non-vacuity: a two-chromosome, three-section input (items_per_slot = 2: chromosome "a" has
    three values = two sections, "b" one) meets every hypothesis, with both writers; and the reader
    run on the computed bytes returns the values (computed, not derived). *)
